@@ -971,6 +971,7 @@ class ParseContext:
 
                 if part == "":
                     if i == len(parts) - 1 or i == 0:
+                        i -= 1
                         continue
                     while depth >= min_depth:
                         if match(i - 1, depth):
@@ -988,11 +989,8 @@ class ParseContext:
                     if next is None:
                         return False
 
-                    try:
-                        next.groups.index(part)
-                    except IndexError:
-                        if next.name != part:
-                            return False
+                    if next.name != part and part not in next.groups:
+                        return False
 
                     depth -= 1
                 i -= 1
